@@ -56,66 +56,71 @@ Qed.
 Lemma abs_engine_of fs k t : abs (engine_of fs) k t = files_get fs k t.
 Proof. reflexivity. Qed.
 
-Lemma backup_sel_full since mfs :
-  Forall (fun p => (fst p > since)%Z) mfs -> backup_sel since mfs = map snd mfs.
+(** One file of a backup taken with everything newer than [since]: its tombstone file is
+    in the archive too, or its tombstones hide nothing. *)
+Definition fresh_entry (since : Z) (p : Z * option Z * file) : Prop :=
+  (fst (fst p) > since)%Z /\
+  match snd (fst p) with Some m => (m > since)%Z | None => tomb_inert (snd p) end.
+
+Lemma restored_full_get since mfs k t :
+  Forall (fresh_entry since) mfs ->
+  files_get (map restored_file (backup_sel since mfs)) k t = files_get (map snd mfs) k t.
 Proof.
-  unfold backup_sel. induction 1 as [|p l Hp _ IH]; [reflexivity|]. cbn [filter].
-  replace (Z.gtb (fst p) since) with true by (symmetry; apply Z.gtb_lt; lia).
-  cbn [map]. f_equal. exact IH.
+  unfold backup_sel. induction 1 as [|[[m tm] f] l [Hm Ht] _ IH]; [reflexivity|].
+  cbn [flat_map fst snd] in *.
+  replace (Z.gtb m since) with true by (symmetry; apply Z.gtb_lt; lia).
+  cbn [app map files_get]. rewrite IH. destruct (files_get (map snd l) k t); [reflexivity|].
+  unfold restored_file; cbn [fst snd]. destruct tm as [x|].
+  - replace (Z.gtb x since) with true by (symmetry; apply Z.gtb_lt; lia). reflexivity.
+  - apply strip_get. exact Ht.
 Qed.
 
-(** Full backup (every file newer than [since]) of a quiescent engine whose tombstones
-    hide nothing, restored into the empty engine: same reads. *)
+Lemma map_snd_combine3 (mts : list (Z * option Z)) (fs : list file) :
+  length mts = length fs -> map snd (map (fun p => (fst p, snd p)) (combine mts fs)) = fs.
+Proof.
+  revert fs. induction mts as [|m mts IH]; intros [|f fs] H; try discriminate; [reflexivity|].
+  cbn. f_equal. apply IH. cbn in H. lia.
+Qed.
+
+(** [mts]: per file (mtime of the .tsm, mtime of its tombstone file if it has one). *)
+Definition with_mtimes (mts : list (Z * option Z)) (fs : list file) : list (Z * option Z * file) :=
+  map (fun p => (fst p, snd p)) (combine mts fs).
+
+(** Full backup (every .tsm and every tombstone file newer than [since]) of a quiescent
+    engine, restored into the empty engine: same reads.  The side condition — a file
+    without a tombstone FILE has no tombstone that hides a point — is the consistency of
+    the observed directory with the engine state (checked per case by [layout_ok]). *)
 Theorem restore_full_backup s since mts :
-  quiescent s -> Forall tomb_inert (files s) ->
-  length mts = length (files (snapshot_now s)) -> Forall (fun m => (m > since)%Z) mts ->
+  quiescent s -> length mts = length (files (snapshot_now s)) ->
+  Forall (fresh_entry since) (with_mtimes mts (files (snapshot_now s))) ->
   forall k t,
-    abs (restore_state (backup_sel since (combine mts (files (snapshot_now s))))) k t = abs s k t.
+    abs (restore_state (backup_sel since (with_mtimes mts (files (snapshot_now s))))) k t = abs s k t.
 Proof.
-  intros Q Hin Hlen Hm k t.
-  rewrite backup_sel_full.
-  2:{ apply Forall_forall. intros [m f] Hp. apply in_combine_l in Hp. cbn [fst].
-      rewrite Forall_forall in Hm. apply Hm. exact Hp. }
-  assert (E : map snd (combine mts (files (snapshot_now s))) = files (snapshot_now s)).
-  { clear -Hlen. revert Hlen. generalize (files (snapshot_now s)) as fs.
-    induction mts as [|m mts IH]; intros [|f fs] H; try discriminate; [reflexivity|].
-    cbn. f_equal. apply IH. cbn in H. lia. }
-  rewrite E. unfold restore_state. rewrite abs_engine_of.
+  intros Q Hlen Hf k t. unfold restore_state. rewrite abs_engine_of, (restored_full_get _ _ _ _ Hf).
+  unfold with_mtimes. rewrite map_snd_combine3 by exact Hlen.
   destruct (snapshot_now_shape s Q) as (H1 & H2 & H3 & H4).
-  rewrite files_get_strip.
-  - rewrite <- (snapshot_now_abs s k t). unfold abs. rewrite H1, H2. reflexivity.
-  - rewrite H4. apply Forall_app. split; [exact Hin|].
-    destruct (hot s); constructor; [|constructor]. intros k' t' Ht. discriminate.
+  rewrite <- (snapshot_now_abs s k t). unfold abs. rewrite H1, H2. reflexivity.
 Qed.
 
-(** What restore really yields, without the hypothesis: every tombstone is forgotten. *)
-Theorem restore_full_backup_char s since mts :
-  quiescent s -> length mts = length (files (snapshot_now s)) -> Forall (fun m => (m > since)%Z) mts ->
-  forall k t,
-    abs (restore_state (backup_sel since (combine mts (files (snapshot_now s))))) k t
-    = files_get (map strip (files (snapshot_now s))) k t.
-Proof.
-  intros Q Hlen Hm k t.
-  rewrite backup_sel_full.
-  2:{ apply Forall_forall. intros [m f] Hp. apply in_combine_l in Hp. cbn [fst].
-      rewrite Forall_forall in Hm. apply Hm. exact Hp. }
-  assert (E : map snd (combine mts (files (snapshot_now s))) = files (snapshot_now s)).
-  { clear -Hlen. revert Hlen. generalize (files (snapshot_now s)) as fs.
-    induction mts as [|m mts IH]; intros [|f fs] H; try discriminate; [reflexivity|].
-    cbn. f_equal. apply IH. cbn in H. lia. }
-  rewrite E. reflexivity.
-Qed.
-
-(** The full statement fails: write, snapshot, delete (tombstone), backup, restore. *)
+(** The repaired witness: write, snapshot, delete (tombstone), full backup, restore —
+    the deleted point stays deleted.  (Before the repair of finding
+    restore-drops-tombstones the restored shard read [Some 7] here.) *)
 Definition c38_witness : list op :=
   [Write [(0%N, 5%Z, 7%Z)]; SnapBegin; SnapCommit; Delete [0%N] 0%Z 9%Z].
 
-Lemma restore_resurrects_witness :
+Lemma restore_keeps_delete_witness :
   let s := run c38_witness init in
   quiescent s /\
   abs s 0%N 5%Z = None /\
-  abs (restore_state (backup_sel 0 (combine [1%Z] (files (snapshot_now s))))) 0%N 5%Z = Some 7%Z.
+  abs (restore_state (backup_sel 0 (with_mtimes [(1%Z, Some 1%Z)] (files (snapshot_now s))))) 0%N 5%Z = None.
 Proof. vm_compute. repeat split; reflexivity. Qed.
+
+(** An incremental backup that holds a .tsm but not its (older) tombstone file restores
+    the file without its deletes: the archive is what [since] selects, nothing more. *)
+Lemma restore_without_tombstone_member_witness :
+  let s := run c38_witness init in
+  abs (restore_state (backup_sel 1 (with_mtimes [(2%Z, Some 1%Z)] (files (snapshot_now s))))) 0%N 5%Z = Some 7%Z.
+Proof. vm_compute. reflexivity. Qed.
 
 (** * Incremental backup: the member list *)
 Lemma indexed_in {A} (l : list A) : forall i j x,
@@ -267,45 +272,50 @@ Proof.
     (Z.leb_spec mx hi), (Z.ltb_spec mn lo), (Z.leb_spec mn lo), (Z.geb_spec mx hi); cbn; auto; lia.
 Qed.
 
-Lemma export_file_members lo hi f ms : export_file lo hi f = Some ms ->
-  forall m, In m ms <->
-    (overlaps3 (fmin f) (fmax f) lo hi = true /\ m = filter (block_keep lo hi) f)
+Lemma export_file_members lo hi f m :
+  In m (export_file lo hi f) <->
+    (overlaps3 (fmin f) (fmax f) lo hi = true /\ m = filter (block_keep lo hi) f /\ m <> [])
     \/ (inside (fmin f) (fmax f) lo hi = true /\ m = f).
 Proof.
-  unfold export_file. intros E m.
+  unfold export_file, export_file_gen.
+  set (W := if inside (fmin f) (fmax f) lo hi then [f] else []).
+  assert (HW : In m W <-> inside (fmin f) (fmax f) lo hi = true /\ m = f).
+  { unfold W. destruct (inside (fmin f) (fmax f) lo hi); cbn [In].
+    - split; [intros [H|[]]; subst; auto|intros [_ H]; subst; auto].
+    - split; [intros []|intros [H _]; discriminate]. }
   destruct (overlaps3 (fmin f) (fmax f) lo hi) eqn:O.
-  - destruct (filter (block_keep lo hi) f) as [|b g] eqn:F; [discriminate|].
-    inversion E; subst; clear E. destruct (inside (fmin f) (fmax f) lo hi) eqn:I; cbn [In].
-    + split; [intros [H|[H|[]]]; subst; auto|]. intros [[_ H]|[_ H]]; subst; auto.
-    + split; [intros [H|[]]; subst; auto|]. intros [[_ H]|[H _]]; [subst; auto|discriminate].
-  - inversion E; subst; clear E. destruct (inside (fmin f) (fmax f) lo hi) eqn:I; cbn [In].
-    + split; [intros [H|[]]; subst; auto|]. intros [[H _]|[_ H]]; [discriminate|subst; auto].
-    + split; [intros []|]. intros [[H _]|[H _]]; discriminate.
+  - destruct (filter (block_keep lo hi) f) as [|b g] eqn:F.
+    + rewrite HW. split; [auto|]. intros [(_ & H & N)|H]; [congruence|exact H].
+    + cbn [In]. rewrite HW. split.
+      * intros [H|H]; [left; subst; repeat split; discriminate|right; exact H].
+      * intros [(_ & H & _)|H]; [left; symmetry; exact H|right; exact H].
+  - rewrite HW. split; [auto|]. intros [(H & _)|H]; [discriminate|exact H].
 Qed.
 
 (** Nothing in the range is lost. *)
-Theorem export_file_nothing_lost lo hi f ms k t v :
-  export_file lo hi f = Some ms -> In (k, t, v) (bfile_log f) -> (lo <= t <= hi)%Z ->
-  exists m, In m ms /\ In (k, t, v) (bfile_log m).
+Theorem export_file_nothing_lost lo hi f k t v :
+  In (k, t, v) (bfile_log f) -> (lo <= t <= hi)%Z ->
+  exists m, In m (export_file lo hi f) /\ In (k, t, v) (bfile_log m).
 Proof.
-  intros E Hin R. pose proof (export_file_members lo hi f ms E) as M.
-  apply in_bfile_log in Hin as [b [Hb Hp]].
+  intros Hin R. apply in_bfile_log in Hin as [b [Hb Hp]].
   pose proof (file_bounds f b t Hb (in_block_time _ _ _ _ Hp)) as FB.
+  assert (Hk : In b (filter (block_keep lo hi) f)).
+  { apply filter_In. split; [exact Hb|]. eapply block_keep_hit; eassumption. }
   destruct (file_tests_cover (fmin f) (fmax f) lo hi) as [O|I]; try lia.
-  - exists (filter (block_keep lo hi) f). split; [apply M; left; split; [exact O|reflexivity]|].
-    apply in_bfile_log. exists b. split; [|exact Hp]. apply filter_In. split; [exact Hb|].
-    eapply block_keep_hit; eassumption.
-  - exists f. split; [apply M; right; split; [exact I|reflexivity]|].
+  - exists (filter (block_keep lo hi) f). split.
+    + apply export_file_members. left. repeat split; [exact O|]. intros E. rewrite E in Hk. destruct Hk.
+    + apply in_bfile_log. exists b. split; [exact Hk|exact Hp].
+  - exists f. split; [apply export_file_members; right; split; [exact I|reflexivity]|].
     apply in_bfile_log. exists b. split; assumption.
 Qed.
 
 (** Every exported block is a source block that passes the block test (it overlaps the range). *)
-Theorem export_file_only_overlapping lo hi f ms m b :
+Theorem export_file_only_overlapping lo hi f m b :
   Forall (fun b => snd b <> []) f ->
-  export_file lo hi f = Some ms -> In m ms -> In b m ->
+  In m (export_file lo hi f) -> In b m ->
   In b f /\ block_keep lo hi b = true.
 Proof.
-  intros NE E Hm Hb. apply (export_file_members lo hi f ms E) in Hm as [[_ ->]|[I ->]].
+  intros NE Hm Hb. apply export_file_members in Hm as [(_ & -> & _)|[I ->]].
   - apply filter_In in Hb. exact Hb.
   - split; [exact Hb|]. rewrite Forall_forall in NE. specialize (NE b Hb).
     assert (T : btimes b <> []).
@@ -320,32 +330,15 @@ Proof.
 Qed.
 
 (** Exactness holds when block boundaries align with the range: every kept block inside it. *)
-Theorem export_file_exact_when_aligned lo hi f ms :
+Theorem export_file_exact_when_aligned lo hi f :
   Forall (fun b => snd b <> []) f ->
   Forall (fun b => block_keep lo hi b = true -> (lo <= bmin b /\ bmax b <= hi)%Z) f ->
-  export_file lo hi f = Some ms ->
-  forall m k t v, In m ms -> In (k, t, v) (bfile_log m) -> (lo <= t <= hi)%Z.
+  forall m k t v, In m (export_file lo hi f) -> In (k, t, v) (bfile_log m) -> (lo <= t <= hi)%Z.
 Proof.
-  intros NE AL E m k t v Hm Hp. apply in_bfile_log in Hp as [b [Hb Hp]].
-  destruct (export_file_only_overlapping lo hi f ms m b NE E Hm Hb) as [Hbf K].
+  intros NE AL m k t v Hm Hp. apply in_bfile_log in Hp as [b [Hb Hp]].
+  destruct (export_file_only_overlapping lo hi f m b NE Hm Hb) as [Hbf K].
   rewrite Forall_forall in AL. specialize (AL b Hbf K).
   apply block_bounds in Hp. lia.
-Qed.
-
-(** When Export fails with ErrNoValues. *)
-Theorem export_file_error_iff lo hi f :
-  export_file lo hi f = None <->
-  overlaps3 (fmin f) (fmax f) lo hi = true /\ (forall b, In b f -> block_keep lo hi b = false).
-Proof.
-  unfold export_file. destruct (overlaps3 (fmin f) (fmax f) lo hi).
-  - destruct (filter (block_keep lo hi) f) as [|b g] eqn:F.
-    + split; [intros _|reflexivity]. split; [reflexivity|]. intros b Hb.
-      destruct (block_keep lo hi b) eqn:K; [|reflexivity].
-      assert (In b (filter (block_keep lo hi) f)) by (apply filter_In; auto). rewrite F in H. destruct H.
-    + split; [discriminate|]. intros [_ H].
-      assert (In b (filter (block_keep lo hi) f)) by (rewrite F; left; reflexivity).
-      apply filter_In in H0 as [H1 H2]. rewrite (H b H1) in H2. discriminate.
-  - split; [discriminate|]. intros [H _]. discriminate.
 Qed.
 
 (** ** Read level: importing the export gives the source's reads inside the range. *)
@@ -368,56 +361,33 @@ Qed.
 Lemma file_get_of_bfile f k t : file_get (file_of_bfile f) k t = log_get (bfile_log f) k t.
 Proof. reflexivity. Qed.
 
-Lemma export_file_get lo hi f ms k t :
-  export_file lo hi f = Some ms -> (lo <= t <= hi)%Z ->
-  files_get (map file_of_bfile ms) k t = log_get (bfile_log f) k t.
+Lemma export_file_get lo hi f k t : (lo <= t <= hi)%Z ->
+  files_get (map file_of_bfile (export_file lo hi f)) k t = log_get (bfile_log f) k t.
 Proof.
-  intros E R. pose proof E as E0. unfold export_file in E.
-  destruct (overlaps3 (fmin f) (fmax f) lo hi) eqn:O.
-  - destruct (filter (block_keep lo hi) f) as [|b g] eqn:F; [discriminate|].
-    inversion E; subst; clear E. rewrite <- F.
-    destruct (inside (fmin f) (fmax f) lo hi); cbn [map files_get];
-      rewrite !file_get_of_bfile, log_get_filter_blocks by exact R;
-      destruct (log_get (bfile_log f) k t); reflexivity.
-  - inversion E; subst; clear E.
-    destruct (inside (fmin f) (fmax f) lo hi) eqn:I; cbn [map files_get].
-    + rewrite file_get_of_bfile. reflexivity.
-    + symmetry. apply log_get_none_iff. intros v H.
-      destruct (export_file_nothing_lost lo hi f [] k t v E0 H R) as [m [[] _]].
+  intros R.
+  assert (NoPt : export_file lo hi f = [] -> log_get (bfile_log f) k t = None).
+  { intros E. apply log_get_none_iff. intros v H.
+    destruct (export_file_nothing_lost lo hi f k t v H R) as [m [Hm _]]. rewrite E in Hm. destruct Hm. }
+  pose proof (log_get_filter_blocks lo hi f k t R) as FB.
+  unfold export_file, export_file_gen in *.
+  destruct (overlaps3 (fmin f) (fmax f) lo hi) eqn:O;
+    destruct (inside (fmin f) (fmax f) lo hi) eqn:I;
+    try (destruct (filter (block_keep lo hi) f) as [|b g] eqn:F); cbn [map files_get];
+    rewrite ?file_get_of_bfile, ?FB;
+    try (destruct (log_get (bfile_log f) k t); reflexivity);
+    try (symmetry; apply NoPt; reflexivity).
 Qed.
 
-Theorem export_import_in_range lo hi : forall fs i ms,
-  export lo hi i fs = (0%N, ms) ->
-  forall k t, (lo <= t <= hi)%Z ->
-    abs (import_state (map snd ms)) k t = files_get (map (fun p => file_of_bfile (snd p)) fs) k t.
-Proof.
-  unfold import_state. intros fs i ms E k t R. rewrite abs_engine_of. revert i ms E.
-  induction fs as [|[[|] f] fs IH]; intros i ms E; cbn [export] in E.
-  - inversion E; subst. reflexivity.
-  - discriminate.
-  - destruct (export_file lo hi f) as [mf|] eqn:EF; [|discriminate].
-    destruct (export lo hi (S i) fs) as [c rest] eqn:ER. inversion E; subst; clear E.
-    specialize (IH (S i) rest ER).
-    rewrite map_app, map_map. cbn [snd]. rewrite map_id, map_app, files_get_app, IH.
-    cbn [map files_get snd]. rewrite (export_file_get lo hi f mf k t EF R), file_get_of_bfile.
-    reflexivity.
-Qed.
+Definition plain (fs : list bfile) : list (bfile * bfile) := map (fun b => (b, b)) fs.
 
-(** (b) a shard with a tombstoned TSM file cannot be exported at all. *)
-Theorem export_tombstoned_fails lo hi : forall fs i,
-  existsb fst fs = true -> fst (export lo hi i fs) <> 0%N.
+Theorem export_import_in_range lo hi : forall fs i k t, (lo <= t <= hi)%Z ->
+  abs (import_state (map snd (export lo hi i (plain fs)))) k t = files_get (map file_of_bfile fs) k t.
 Proof.
-  induction fs as [|[[|] f] fs IH]; intros i H; cbn [export existsb fst] in *.
-  - discriminate.
-  - cbn. discriminate.
-  - destruct (export_file lo hi f); [|cbn; discriminate].
-    specialize (IH (S i) H). destruct (export lo hi (S i) fs). cbn [fst] in *. exact IH.
-Qed.
-
-Theorem export_no_tombstone_ok lo hi : forall fs i ms, export lo hi i fs = (0%N, ms) -> existsb fst fs = false.
-Proof.
-  intros fs i ms E. destruct (existsb fst fs) eqn:X; [|reflexivity].
-  pose proof (export_tombstoned_fails lo hi fs i X) as H. rewrite E in H. cbn in H. congruence.
+  unfold import_state. intros fs i k t R. rewrite abs_engine_of. revert i.
+  induction fs as [|f fs IH]; intros i; [reflexivity|].
+  cbn [plain map export]. fold (plain fs). fold (export_file lo hi f).
+  rewrite map_app, map_map. cbn [snd]. rewrite map_id, map_app, files_get_app, IH.
+  cbn [files_get]. rewrite (export_file_get lo hi f k t R), file_get_of_bfile. reflexivity.
 Qed.
 
 (** (c) the exact-range statement fails: blocks [0,1,2] [3,4,5], range 1..1. *)
@@ -425,13 +395,21 @@ Definition c38_export_witness : bfile :=
   [(0%N, [(0, 10); (1, 11); (2, 12)]%Z); (0%N, [(3, 13); (4, 14); (5, 15)]%Z)].
 
 Lemma export_not_exact_witness :
-  export 1 1 0 [(false, c38_export_witness)] = (0%N, [(0%nat, [(0%N, [(0, 10); (1, 11); (2, 12)]%Z)])]) /\
+  export 1 1 0 (plain [c38_export_witness]) = [(0%nat, [(0%N, [(0, 10); (1, 11); (2, 12)]%Z)])] /\
   abs (import_state [[(0%N, [(0, 10); (1, 11); (2, 12)]%Z)]]) 0%N 0%Z = Some 10%Z.
 Proof. vm_compute. split; reflexivity. Qed.
 
-(** ErrNoValues witness: keys with a gap around the range. *)
-Lemma export_no_values_witness :
-  export 4 5 0 [(false, [(0%N, [(0, 1); (1, 2)]%Z); (2%N, [(10, 3)]%Z)])] = (2%N, []).
+(** Repaired: a file that overlaps the range with no block in it exports nothing (was: the
+    whole Export failed with ErrNoValues). *)
+Lemma export_gap_witness :
+  export 4 5 0 (plain [[(0%N, [(0, 1); (1, 2)]%Z); (2%N, [(10, 3)]%Z)]]) = [].
+Proof. vm_compute. reflexivity. Qed.
+
+(** Repaired: a tombstoned file is exported (was: Export failed).  Key 0 entirely deleted
+    (absent from the reader's view), key 2 kept. *)
+Lemma export_tombstoned_witness :
+  export 0 5 0 [([(0%N, [(0, 1); (1, 2)]%Z); (2%N, [(3, 3); (10, 4)]%Z)], [(2%N, [(3, 3); (10, 4)]%Z)])]
+  = [(0%nat, [(2%N, [(3, 3); (10, 4)]%Z)])].
 Proof. vm_compute. reflexivity. Qed.
 
 (** * The observed layout ties a model file to its blocks. *)
@@ -449,14 +427,14 @@ Qed.
 
 (** State level: a quiescent, flushed, tombstone-free engine whose files have layout [bs]:
     importing the export reads like the source inside the range. *)
-Theorem export_import_state lo hi s bs ms :
+Theorem export_import_state lo hi s bs :
   hot s = [] -> snap s = [] ->
   Forall2 same_points (files s) bs -> Forall (fun f => ftomb f = []) (files s) ->
-  export lo hi 0 (map (pair false) bs) = (0%N, ms) ->
-  forall k t, (lo <= t <= hi)%Z -> abs (import_state (map snd ms)) k t = abs s k t.
+  forall k t, (lo <= t <= hi)%Z ->
+    abs (import_state (map snd (export lo hi 0 (plain bs)))) k t = abs s k t.
 Proof.
-  intros H1 H2 L T E k t R.
-  rewrite (export_import_in_range lo hi _ _ _ E k t R), map_map. cbn [snd].
+  intros H1 H2 L T k t R.
+  rewrite (export_import_in_range lo hi _ _ k t R).
   rewrite (files_get_layout _ _ L T). unfold abs. rewrite H1, H2. reflexivity.
 Qed.
 
@@ -492,12 +470,24 @@ Theorem restore_full_backup_no_delete h since mts :
   no_delete h -> quiescent (run h init) ->
   length mts = length (files (snapshot_now (run h init))) -> Forall (fun m => (m > since)%Z) mts ->
   forall k t,
-    abs (restore_state (backup_sel since (combine mts (files (snapshot_now (run h init)))))) k t
+    abs (restore_state (backup_sel since
+           (with_mtimes (map (fun m => (m, None)) mts) (files (snapshot_now (run h init)))))) k t
     = log_get (spec_log h []) k t.
 Proof.
-  intros ND Q Hl Hm k t. rewrite restore_full_backup; try assumption.
+  intros ND Q Hl Hm k t.
+  assert (NT : no_tombs (run h init)) by (apply run_no_tombs; [exact ND|constructor]).
+  assert (NT' : Forall (fun f => ftomb f = []) (files (snapshot_now (run h init)))).
+  { destruct (snapshot_now_shape _ Q) as (_ & _ & _ & H4). rewrite H4. apply Forall_app. split; [exact NT|].
+    destruct (hot (run h init)); constructor; [reflexivity|constructor]. }
+  rewrite restore_full_backup; try assumption.
   - apply run_refines; [intros; apply abs_init|apply no_delete_safe; exact ND].
-  - assert (NT : no_tombs (run h init)) by (apply run_no_tombs; [exact ND|constructor]).
-    unfold no_tombs in NT. rewrite Forall_forall in *. intros f Hf k' t' Ht.
-    rewrite (NT f Hf) in Ht. discriminate.
+  - rewrite map_length. exact Hl.
+  - unfold with_mtimes. apply Forall_forall. intros [[m tm] f] Hin.
+    apply in_map_iff in Hin as [[[m' tm'] f'] [E Hin]].
+    cbn in E. inversion E; subst. pose proof (in_combine_l _ _ _ _ Hin) as Hl1.
+    apply in_combine_r in Hin. apply in_map_iff in Hl1 as [m0 [E0 Hm0]]. inversion E0; subst.
+    split; cbn [fst snd].
+    + rewrite Forall_forall in Hm. apply (Hm _ Hm0).
+    + rewrite Forall_forall in NT'. specialize (NT' _ Hin).
+      intros k' t' Ht. rewrite NT' in Ht. discriminate.
 Qed.
